@@ -343,7 +343,7 @@ impl Scenario for Quiesce {
         }
         w.bootstrap_full();
         const OP_QUIET: usize = 1_000_000;
-        let t_quiet = (p.duration_ms + 1) * MS;
+        let mut t_quiet = (p.duration_ms + 1) * MS;
         w.schedule_op(t_quiet, OP_QUIET);
         let period = p.wc.cfg.probe_period.as_nanos() as u64;
         let suspect = p.wc.cfg.suspect_to_down_after.as_nanos() as u64;
@@ -369,8 +369,11 @@ impl Scenario for Quiesce {
                     let healthy = (p.wc.cfg.probe_rtt.as_nanos() as u64 / 4).saturating_sub(1).max(1);
                     w.wc.net.lat_max_ns = w.wc.net.lat_max_ns.min(healthy);
                     w.wc.net.lat_min_ns = w.wc.net.lat_min_ns.min(w.wc.net.lat_max_ns);
+                    // stalls in progress run out on their own (cutting one short would deliver the stalled
+                    // node's later timers before its deferred ones: a reordering no runtime produces); the
+                    // quiet period counts from the end of the last one
                     for i in 0..n {
-                        w.stalled_until[i] = 0;
+                        t_quiet = t_quiet.max(w.stalled_until[i]);
                     }
                     // whoever is down comes back (a supervisor restarts crashed processes)
                     for a in 1..=n as u16 {
@@ -466,7 +469,7 @@ impl Scenario for Quiesce {
             out.nontrivial = true;
             match converged_at {
                 Some(t) => {
-                    out.stats.max("c05_quiesce_convergence_permille_of_bound", (t - t_quiet) * 1000 / bound);
+                    out.stats.max("c05_quiesce_convergence_permille_of_bound", t.saturating_sub(t_quiet) * 1000 / bound);
                 }
                 None => {
                     let live = w.live_addrs();
@@ -487,7 +490,7 @@ impl Scenario for Quiesce {
                     }
                     let conns: Vec<String> = live.iter().map(|a| { let o = &w.proc(*a).unwrap().obs; format!("{}:{}:{}members", o.id, ["disconnected", "connected", "defunct"][o.snap.connection_state as usize], o.num_members) }).collect();
                     let tag = if all_idle && mutually_superseded { "C05/no-convergence-after-faults-stop:every-instance-idle:mutually-superseded" } else { "C05/no-convergence-after-faults-stop" };
-                    vs.push(Violation { property: "C05", tag: tag.into(), detail: format!("{} ms after the faults stopped: {detail}; instances: {:?}", (w.now - t_quiet) / MS, conns), at: w.now });
+                    vs.push(Violation { property: "C05", tag: tag.into(), detail: format!("{} ms after the faults stopped: {detail}; instances: {:?}", w.now.saturating_sub(t_quiet) / MS, conns), at: w.now });
                 }
             }
         }
